@@ -68,8 +68,9 @@ const workers = 8
 
 // replayData is what a replay file carries.
 type replayData struct {
-	Log Log `json:"log"`
-	Cut int `json:"cut"`
+	Log  Log    `json:"log"`
+	Cut  int    `json:"cut"`
+	Mode string `json:"mode,omitempty"` // persisted configuration, see configModes
 }
 
 // ---- generators --------------------------------------------------------------
@@ -295,7 +296,7 @@ type subState struct {
 	replay replayData
 }
 
-func checkLog(t ev.Failer, c *ev.Collector, ss *subState, b *built, cuts []int) {
+func checkLog(t ev.Failer, c *ev.Collector, ss *subState, b *built, cuts []int, modeOf func(c int) string) {
 	if ss.failed != nil {
 		c.Fail(t, ss.failed.Key, ss.failed.What, ss.replay)
 	}
@@ -303,6 +304,12 @@ func checkLog(t ev.Failer, c *ev.Collector, ss *subState, b *built, cuts []int) 
 	visit := func(ci cutInfo) {
 		c.Case()
 		c.Label("class:" + ci.class)
+		if ci.mode != "" {
+			c.Label("config:" + ci.mode)
+			if ci.inside {
+				c.Label("config:" + ci.mode + ":torn")
+			}
+		}
 		for _, l := range ci.labels {
 			c.Label(l)
 		}
@@ -313,17 +320,17 @@ func checkLog(t ev.Failer, c *ev.Collector, ss *subState, b *built, cuts []int) 
 		if ci.inside {
 			c.Label("torn:" + ci.cmdName)
 			if c.WantSample() {
-				c.Sample(map[string]any{"log": b.id, "log_bytes": len(b.bytes), "cut": ci.cut, "class": ci.class, "labels": ci.labels,
+				c.Sample(map[string]any{"log": b.id, "log_bytes": len(b.bytes), "cut": ci.cut, "class": ci.class, "config": ci.mode, "labels": ci.labels,
 					"torn_command": t38.CmdString(b.cmds[ci.k]), "offset_in_command": ci.relStart, "complete_before": ci.k, "file_after_recovery": ci.hi})
 			}
 		}
 		if ci.inside || padded || ci.healthyMulti {
-			c.NonTrivial(fmt.Sprintf("%s@%d", b.id, ci.cut))
+			c.NonTrivial(fmt.Sprintf("%s@%d/%s", b.id, ci.cut, ci.mode))
 		}
 	}
 	var confirmed *failure
 	for len(cuts) > 0 && confirmed == nil {
-		fails, hiccups, dispatched := runCuts(b, cuts, workers, visit)
+		fails, hiccups, dispatched := runCuts(b, cuts, workers, modeOf, visit)
 		cuts = cuts[dispatched:]
 		for _, h := range hiccups {
 			c.Inconclusive("log %s: %s", b.id, h)
@@ -336,7 +343,7 @@ func checkLog(t ev.Failer, c *ev.Collector, ss *subState, b *built, cuts []int) 
 		// otherwise the remaining cuts of the log are resumed.
 		for _, pf := range fails {
 			for try := 0; try < 2 && confirmed == nil; try++ {
-				nf, herr := runCutSync(b, pf.Cut)
+				nf, herr := runCutSync(b, pf.Cut, pf.Mode)
 				if herr == nil && nf != nil {
 					confirmed = nf
 				}
@@ -394,12 +401,12 @@ func shrinkFailure(b *built, f failure) (failure, replayData) {
 			cut = nb.segs[len(nb.segs)-1].start + rel
 		}
 		budget--
-		nf, herr := runCutSync(nb, cut)
+		nf, herr := runCutSync(nb, cut, f.Mode)
 		if herr == nil && nf != nil && nf.Key == f.Key {
 			best, bestCut, bestF = cand, cut, *nf
 		}
 	}
-	return bestF, replayData{Log: Log{Items: best}, Cut: bestCut}
+	return bestF, replayData{Log: Log{Items: best}, Cut: bestCut, Mode: f.Mode}
 }
 
 // windowCuts returns every offset within +-radius of each boundary, plus extra.
@@ -514,7 +521,7 @@ func TestReplay(t *testing.T) {
 		t.Fatalf("replay log is inconsistent: %v", err)
 	}
 	c.Case()
-	f, herr := runCutSync(b, rd.Cut)
+	f, herr := runCutSync(b, rd.Cut, rd.Mode)
 	if herr != nil {
 		c.Inconclusive("%v", herr)
 		t.Skipf("harness trouble: %v", herr)
